@@ -59,4 +59,36 @@ theorem undo_kinds_modelled :
        kindName (.suicide [] false 0), kindName (.touch [] false false), kindName (.transient [] [] [])] := by
   decide
 
+/-- fields of the model's journal entries, under the Go names, in the order of the constructor arguments -/
+def modelFields : List (String × List String) :=
+  [ ("accessListAddAccountChange", ["address"]),            -- Entry.alAddr a
+    ("accessListAddSlotChange", ["address", "slot"]),       -- Entry.alSlot a slot
+    ("addLogChange", ["txhash"]),                           -- Entry.addLog th
+    ("createObjectChange", ["account"]),                    -- Entry.create a
+    ("nftSetDefinitionChange", ["account", "prev", "prevhash"]), -- Entry.code a prevCode prevHash
+    ("nonceChange", ["account", "prev"]),                   -- Entry.nonce a prev
+    ("refundChange", ["prev"]),                             -- Entry.refund prev
+    ("resetObjectChange", ["prev"]),                        -- (unreachable, not in the model)
+    ("storageChange", ["account", "key", "prevalue"]),      -- Entry.storage a k prev
+    ("suicideChange", ["account", "prev", "prevbalance"]),  -- Entry.suicide a prev prevBal
+    ("touchChange", ["account", "prev", "prevDirty"]),      -- Entry.touch a prev prevDirty
+    ("transientStorageChange", ["account", "key", "prevalue"]) ] -- Entry.transient a k prev
+
+/-- every journal entry struct of `transition.go` carries exactly the fields the model's entry carries
+    (a dropped or added field breaks this) -/
+theorem entry_fields_modelled : entryFields = modelFields := by decide
+
+/-- every undo method reads every field of its entry (an undo that substitutes a constant for a recorded
+    value leaves the field unread and breaks this) -/
+theorem undo_reads_all_fields : undoUses = entryFields := by decide
+
+/-- every place that builds a journal entry sets all of its fields (keyed literals list them, the two
+    positional ones give one value for the single field) -/
+theorem literals_set_all_fields :
+    literals = ["accessListAddAccountChange:#1", "accessListAddAccountChange:#1", "accessListAddSlotChange:address,slot",
+      "addLogChange:txhash", "createObjectChange:account", "nftSetDefinitionChange:account,prevhash,prev",
+      "nonceChange:account,prev", "nonceChange:account,prev", "refundChange:prev", "refundChange:prev",
+      "resetObjectChange:prev", "storageChange:account,key,prevalue", "suicideChange:account,prev,prevbalance",
+      "touchChange:account,prev,prevDirty", "transientStorageChange:account,key,prevalue"] := by decide
+
 end Rangers.Props.C04B
